@@ -5,6 +5,7 @@ package main
 
 import (
 	"fmt"
+	"math/big"
 	"math/rand"
 	"regexp"
 	"strconv"
@@ -14,24 +15,17 @@ import (
 	"github.com/awalterschulze/gominikanren/sexpr/ast"
 )
 
-// interner maps symbol/string contents to numbers, injectively.
-type interner struct {
-	m    map[string]uint64
-	back []string
-}
-
-func newInterner() *interner { return &interner{m: map[string]uint64{}} }
-func (in *interner) id(s string) uint64 {
-	if v, ok := in.m[s]; ok {
-		return v
+// strNum encodes a byte string as a natural number, injectively and independently of the process:
+// the digits of 1 b1 b2 ... bn in base 256.
+func strNum(s string) string {
+	n := new(big.Int).SetInt64(1)
+	for i := 0; i < len(s); i++ {
+		n.Lsh(n, 8)
+		n.Or(n, big.NewInt(int64(s[i])))
 	}
-	v := uint64(len(in.back))
-	in.m[s] = v
-	in.back = append(in.back, s)
-	return v
+	return n.String() + "%N"
 }
 
-var syms = newInterner()
 var reiRe = regexp.MustCompile(`^_(0|[1-9][0-9]*)$`)
 
 // encTerm transcribes a term built by the exported constructors into coq/Term.v syntax.
@@ -55,9 +49,9 @@ func encTerm(s *ast.SExpr) string {
 				return "(TAtom (ARei " + coqN(k) + "))"
 			}
 		}
-		return "(TAtom (ASym " + coqN(syms.id("y:"+*a.Symbol)) + "))"
+		return "(TAtom (ASym " + strNum(*a.Symbol) + "))"
 	case a.Str != nil:
-		return "(TAtom (AStr " + coqN(syms.id("s:"+*a.Str)) + "))"
+		return "(TAtom (AStr " + strNum(*a.Str) + "))"
 	case a.Int != nil:
 		return "(TAtom (AInt " + coqZ(*a.Int) + "))"
 	case a.Float != nil:
